@@ -64,10 +64,17 @@ func tokenValidator(c *Ctx, rule string) *ssa.Function {
 	if a == nil {
 		return nil
 	}
-	for _, cal := range calleesInModule(a.fn) {
-		if paramOfType(cal, typesPkg, "ServerLedActivationTokenNonce") != nil && paramOfType(cal, typesPkg, "FetchNodeCredentialsInfo") != nil {
-			c.R.Fn(core.FuncName(cal))
-			return cal
+	fns := []*ssa.Function{a.fn}
+	for part := range splitFuncs(a.fn, nil) {
+		fns = append(fns, part)
+	}
+	sort.Slice(fns, func(i, j int) bool { return fns[i].Pos() < fns[j].Pos() })
+	for _, f := range fns {
+		for _, cal := range calleesInModule(f) {
+			if paramOfType(cal, typesPkg, "ServerLedActivationTokenNonce") != nil && paramOfType(cal, typesPkg, "FetchNodeCredentialsInfo") != nil && helperOK(cal) {
+				c.R.Fn(core.FuncName(cal))
+				return cal
+			}
 		}
 	}
 	c.R.Unk(rule, "token validator", "", "FetchNodeCredentials calls no function taking (*FetchNodeCredentialsInfo, *ServerLedActivationTokenNonce)")
